@@ -79,7 +79,7 @@ def _run_cancel(
         query = query.where(ArchiveFileCopyRequest.group_to == group)
 
     # Limit to listed files, if given
-    if listed_files:
+    if listed_files is not None:
         query = query.where(ArchiveFileCopyRequest.file << listed_files)
 
     # Apply acq constraint, if any
@@ -213,7 +213,7 @@ def _run_sync(
     )
 
     # Limit to listed files, if given
-    if listed_files:
+    if listed_files is not None:
         query = query.where(ArchiveFile.id << listed_files)
 
     # Limit to acqs, if needed
